@@ -126,6 +126,29 @@ def build_layer(d, roots):
         if isinstance(inh, dict):
             return TransformBase(items, exclude=tuple(inh['exclude']))
         return TransformBase(items, inherit=True if inh is True else tuple(inh))
+    if t == 'transform_const':
+        # a class-based Transform with constructor arguments (ConstantEdge): consts = {_name: json value}
+        import types
+        from connectome import Transform as T
+        items = []
+        for name, desc in d.get('params', {}).items():
+            items.append((name, make_field(desc)))
+        for name, desc in d['fields'].items():
+            items.append((name, make_field(desc)))
+        consts = {k: from_json(v) for k, v in d['consts'].items()}
+
+        def fill(ns):
+            ns['__annotations__'] = {k: object for k in consts}
+            for k, v in consts.items():
+                ns[k] = v
+            for k, v in items:
+                ns[k] = v
+            if d.get('inherit') is True:
+                ns['__inherit__'] = True
+            elif d.get('inherit'):
+                ns['__inherit__'] = tuple(d['inherit'])
+        cls = types.new_class('TC', (T,), {}, fill)
+        return cls()
     if t == 'apply':
         return Apply(**{k: sym(s) for k, s in d['fields'].items()})
     if t == 'ram':
